@@ -143,4 +143,60 @@ Section Basic.
              end;
       own_goal.
   Qed.
+
+  (* ---- every reachable state ------------------------------------------------------------------ *)
+  Lemma run_out_nodup ls : forall s s', run fx info s ls = Some s' -> NoDup (keys (out s)) -> NoDup (keys (out s')).
+  Proof.
+    induction ls as [|l ls IH]; simpl; intros s s' H N; [inversion H; subst; exact N|].
+    destruct (step fx info s l) as [s1|] eqn:E; [|discriminate]. eapply IH; [exact H|]. eapply step_out_nodup; eauto.
+  Qed.
+
+  Lemma run_out_mono ls : forall s s' p, run fx info s ls = Some s' -> In p (out s) -> In p (out s').
+  Proof.
+    induction ls as [|l ls IH]; simpl; intros s s' p H N; [inversion H; subst; exact N|].
+    destruct (step fx info s l) as [s1|] eqn:E; [|discriminate]. eapply IH; [exact H|]. eapply step_out_mono; eauto.
+  Qed.
+
+  Lemma run_own ls : forall s s', run fx info s ls = Some s' -> OwnInv s -> OwnInv s'.
+  Proof.
+    induction ls as [|l ls IH]; simpl; intros s s' H N; [inversion H; subst; exact N|].
+    destruct (step fx info s l) as [s1|] eqn:E; [|discriminate]. eapply IH; [exact H|]. eapply step_own; eauto.
+  Qed.
+
+  Lemma run_app ls1 : forall ls2 s, run fx info s (ls1 ++ ls2) =
+    match run fx info s ls1 with Some s1 => run fx info s1 ls2 | None => None end.
+  Proof.
+    induction ls1 as [|l ls1 IH]; simpl; intros ls2 s; [reflexivity|].
+    destruct (step fx info s l); [apply IH | reflexivity].
+  Qed.
+
+  (* a future never holds two outcomes *)
+  Theorem at_most_once ls s : run fx info init ls = Some s -> NoDup (keys (out s)).
+  Proof. intro H. eapply run_out_nodup; [exact H|]. simpl. constructor. Qed.
+
+  (* an outcome, once stored, is never replaced: it is still there after any continuation *)
+  Theorem outcome_final ls1 ls2 s1 s2 r o :
+    run fx info init ls1 = Some s1 -> run fx info s1 ls2 = Some s2 ->
+    In (r, o) (out s1) -> In (r, o) (out s2) /\ forall o', In (r, o') (out s2) -> o' = o.
+  Proof.
+    intros H1 H2 Hin. split; [eapply run_out_mono; eauto|].
+    intros o' Hin'. assert (Hin2 : In (r, o) (out s2)) by (eapply run_out_mono; eauto).
+    assert (N : NoDup (keys (out s2))).
+    { apply (at_most_once (ls1 ++ ls2)). rewrite run_app, H1. exact H2. }
+    clear -N Hin2 Hin'. unfold keys in N. induction (out s2) as [|[k v] l IH]; simpl in *; [contradiction|].
+    inversion N as [|? ? Hk N']; subst.
+    destruct Hin2 as [E|Hin2], Hin' as [E'|Hin'].
+    - congruence.
+    - inversion E; subst. exfalso. apply Hk. apply in_map_iff. exists (r, o'). auto.
+    - inversion E'; subst. exfalso. apply Hk. apply in_map_iff. exists (r, o). auto.
+    - auto.
+  Qed.
+
+  (* a call only ever receives the outcome of its own request, or a delivery error *)
+  Theorem own_outcome ls s r o :
+    run fx info init ls = Some s -> In (r, o) (out s) -> o = body (info r) \/ o = ODeliveryError.
+  Proof.
+    intros H Hin. pose proof (run_own ls init s H init_own) as [Ho _ _ _].
+    rewrite Forall_forall in Ho. exact (Ho (r, o) Hin).
+  Qed.
 End Basic.
